@@ -178,12 +178,20 @@ class Ctx:
             os.makedirs(os.path.join(ROOT, ".work", "evidence-scratch"), exist_ok=True)
         if not getattr(self, "replay_mode", False):
             with open(os.path.join(ROOT, ".work", "evidence-scratch", f"{self.prop}.json") if scratch
-                      else os.path.join(EVID, f"{self.prop}.json"), "w") as f:
+                      else os.path.join(_evid_dir(self.prop), f"{self.prop}.json"), "w") as f:
                 json.dump(ev, f, indent=1, default=_json_default)
         print(f"[{self.prop}] tier={self.tier} seed={self.seed} states={self.states} transitions={self.transitions} "
               f"evaluations={self.evaluations} traces={self.traces} violations={len(self.violations)} "
               f"known={sum(h['count'] for h in self.known_hits.values())} wall={wall:.1f}s")
         return 1 if self.violations else 0
+
+
+def _evid_dir(prop):
+    """checks of behaviour beyond the listed properties (ids X..) keep their evidence apart"""
+    if prop.startswith("X"):
+        os.makedirs(os.path.join(EVID, "extras"), exist_ok=True)
+        return os.path.join(EVID, "extras")
+    return EVID
 
 
 def pool_map(fn, items, procs=None, chunksize=1):
